@@ -100,6 +100,9 @@ def check_blend(P, R):
             mpa = None
         if isinstance(v, ast.Call) and src(v.func).split(".")[-1] == "where" and len(v.args) == 3:
             cond = v.args[0]
+            # a mask with axes added for broadcasting, `(n < t)[:, None]`, is the comparison
+            while isinstance(cond, ast.Subscript) and all((isinstance(i_, ast.Constant) and i_.value is None) or (isinstance(i_, ast.Slice) and i_.lower is None and i_.upper is None and i_.step is None) or (isinstance(i_, ast.Attribute) and i_.attr == "newaxis") for i_ in (cond.slice.elts if isinstance(cond.slice, ast.Tuple) else [cond.slice])):
+                cond = cond.value
             cc = cone(dua, cond, cst, interproc=False)
             on_n = any(a.endswith(".n") for a in cc.attrs)
             # ... the responsibility mass itself, not a quantity derived from it (the adaptation coefficient is constant - never
